@@ -7,6 +7,7 @@
 -/
 import NiftyVerif.Lemmas.Field
 import NiftyVerif.Lemmas.FieldCRat
+import NiftyVerif.Lemmas.FieldPerm
 import Mathlib.Data.Complex.Basic
 
 namespace NiftyVerif.C06
@@ -387,6 +388,52 @@ example :
     let a : MFld Rat := ⟨7, [("a", f), ("b", f)]⟩
     (mnorm1 (fun z => if z < 0 then -z else z) a, mnorm2Sq (fun z => z * z) a,
      mnormInf (fun x y => if x < y then y else x) (fun z => if z < 0 then -z else z) a) = (14, 50, 4) := by
+  decide +kernel
+
+/-- For ANY `spaces` (any subset of sub-domains, given in any order): the total volume of the listed sub-domains is the
+    sum over an index fibre of exactly those sub-domains of the product of their volume factors (the integral of the
+    constant 1 over `spaces`), when every sub-domain has volume factors and StructuredDomain's `total_volume`. -/
+theorem total_volume_fibre [Field K] (subs : List (SubDom K)) (sp : Spaces) (l : List Nat) (V : K)
+    (hp : parseSpaces sp subs.length = .ok l) (h : totalVolume subs sp = .ok V)
+    (hs : ∀ s ∈ subs, s.tv = none ∧ s.dvol ≠ .none) (o : Idx) :
+    V = sumOver (allIdx (sel true (maskOf subs.length l) (subs.map SubDom.size)))
+          (fun c => prodOver l (fun i => dvolAt subs i (merge (maskOf subs.length l) o c))) :=
+  totalVolume_eq_fibre_sum subs sp l V hp h hs o
+
+/-- The property itself for means: on both code paths and for any subset of sub-domains, `mean(spaces)` is the
+    volume-weighted average over the index fibre, `Σ_c w(c)·x(o,c) / Σ_c w(c)` with `w` the product of the volume
+    factors of the listed sub-domains. -/
+theorem mean_eq_weighted_average [Field K] [DecidableEq K] (f m h : Fld K) (sp : Spaces) (V : K)
+    (hm : mean f sp = .ok m) (hi : integrate f sp = .ok h) (hV : totalVolume f.subs sp = .ok V)
+    (hs : ∀ s ∈ f.subs, s.tv = none ∧ s.dvol ≠ .none) (hV0 : V ≠ 0) :
+    ∃ l, parseSpaces sp f.subs.length = .ok l ∧ ∀ o,
+      m.val o =
+        sumOver (allIdx (sel true (maskOf f.subs.length l) f.sizes)) (fun c =>
+          f.val (merge (maskOf f.subs.length l) o c) *
+            prodOver l (fun ind => dvolAt f.subs ind (merge (maskOf f.subs.length l) o c))) *
+        (sumOver (allIdx (sel true (maskOf f.subs.length l) f.sizes)) (fun c =>
+            prodOver l (fun ind => dvolAt f.subs ind (merge (maskOf f.subs.length l) o c))))⁻¹ := by
+  obtain ⟨l, hp, _, hval⟩ := integrate_eq_sum_weight f h sp hi
+  refine ⟨l, hp, fun o => ?_⟩
+  have hstd : ∀ i, (f.subs.getD i default).tv = none := by
+    intro i
+    by_cases hi' : i < f.subs.length
+    · have : f.subs.getD i default ∈ f.subs := by
+        simp [List.getD_eq_getElem?_getD, List.getElem?_eq_getElem hi']
+      exact (hs _ this).1
+    · simp [List.getD_eq_getElem?_getD, List.getElem?_eq_none (Nat.le_of_not_lt hi')]
+      rfl
+  rw [mean_eq_integrate_div_volume f m h sp V hm hi hV hstd hV0 o, hval o]
+  have hVs := total_volume_fibre f.subs sp l V hp hV hs o
+  simp only [Fld.sizes]
+  rw [← hVs]
+
+-- non-vacuity: DOF-like weights [1/2, 2] × scalar dvol 1/2 (2 points), data 1..4, mean over the FIRST sub-domain:
+-- fibre o=0: (1/2·1 + 2·3)/(5/2) = 13/5, fibre o=1: (1/2·2 + 2·4)/(5/2) = 18/5
+example :
+    let f : Fld Rat := ⟨0, [⟨[2], .vector #[1/2, 2], none⟩, ⟨[2], .scalar (1/2), none⟩], DT.float,
+      fun i => (2 * i.headD 0 + i.tail.headD 0 + 1 : Nat)⟩
+    (match mean f (.list [0]) with | .ok m => [m.val [0], m.val [1]] | .error _ => []) = [13/5, 18/5] := by
   decide +kernel
 
 /-! ### the theorems apply to what the driver executes
